@@ -193,7 +193,7 @@ impl Profile {
                 p.w_open = 4;
                 p.w_close = 3;
                 p.w_forget = 2;
-                p.w_flush = 3;
+                p.w_flush = 5;
                 p.fail_pct = 18;
                 p.w_arm_fail = 4;
                 p.w_kill = 7;
@@ -840,7 +840,7 @@ impl Generator {
             },
             14 => Action::Req {
                 client: usize::MAX,
-                req: if rng.chance(30, 100) {
+                req: if rng.chance(50, 100) {
                     ClientReq::Prune
                 } else {
                     ClientReq::Flush
